@@ -52,6 +52,7 @@ static void finish_world(void)
         w_buffers(shared ? cap * 2 + rn(2) : cap, shared, 16 + rn(32));
         w_init((int)rn(2));
         POLICY = policy;
+        if (chance(30)) QUERY_PM = 30 + rn(150);      /* lookups and queries of the public API in the middle of lines */
 }
 
 /* ---- running one line and judging it ---- */
